@@ -53,9 +53,13 @@ def run_domains(ctx):
         for vs in itertools.product(DUPS, repeat=n):
             if len(set(vs)) < n:
                 lists.append((list(vs), True))
-    for vals, malformed in lists:
+    for li, (vals, malformed) in enumerate(lists):
         code = code_of(vals)
-        d = FiniteDomain(vals)
+        # "a collection of values": lists, tuples, and one-shot iterables (generators, iterators, dict views) alike
+        kind = li % 5
+        d = FiniteDomain(vals if kind == 0 else tuple(vals) if kind == 1 else (v for v in vals) if kind == 2 else iter(vals) if kind == 3
+                         else (dict.fromkeys(vals).keys() if len(set(vals)) == len(vals) else list(vals)))
+        ctx.count(f'domain.built-from.{["list", "tuple", "generator", "iterator", "dict_keys"][kind]}')
         queries = POOL + DUPS
         [code(v) for v in vals]
         cq = [code(v) for v in queries]
@@ -108,10 +112,16 @@ def run_domains(ctx):
 def oracle_bijection(ctx, d, vals, desc):
     n = d.size()
     ok = n == len(vals)
-    for i, v in enumerate(vals):
-        ok = ok and d.numberize(v) == i and d.denumberize(i) == v and d.contains(v)
-    nums = [d.numberize(v) for v in vals]
-    ok = ok and sorted(nums) == list(range(n))
+    try:
+        for i, v in enumerate(vals):
+            ok = ok and d.numberize(v) == i and d.denumberize(i) == v and d.contains(v)
+        nums = [d.numberize(v) for v in vals]
+        ok = ok and sorted(nums) == list(range(n))
+    except (KeyError, IndexError) as e:
+        ctx.evaluations += 1
+        ctx.fail(f'numberize/denumberize raised {type(e).__name__} for a value of the domain', dict(domain=desc), repr(e), list(range(n)),
+                 tags=['domain-bijection', 'raises'])
+        return
     ctx.evaluations += 1
     if not ok:
         ctx.fail('numberize/denumberize are not mutually inverse bijections onto 0..size-1', dict(domain=desc), nums, list(range(n)),
@@ -151,6 +161,14 @@ def run_factors(ctx):
             if len(wsh) == 2 and wsh[0] == wsh[1] and wsh[0] >= 2:
                 k = PhysicalAxis(wsh[0])
                 reps['diag'] = PatternedTensor(t.diagonal().clone(), (k,), (k, k), 7.0)
+            if len(wsh) >= 2:
+                # the same weights stored with permuted axes: virtual axes are a permutation of the physical ones
+                perm = list(range(len(wsh))); ctx.rng.shuffle(perm)
+                if perm == sorted(perm):
+                    perm = perm[::-1]
+                inv = [perm.index(i) for i in range(len(perm))]
+                reps['permuted'] = PatternedTensor(t.permute(*perm).contiguous()).permute(inv)
+                reps['transposed'] = PatternedTensor(t.transpose(0, -1).contiguous()).transpose(0, len(wsh) - 1)
             for rname, w in reps.items():
                 if w is None:
                     continue
@@ -172,8 +190,13 @@ def run_factors(ctx):
                     # apply(values) = weight at the numberized position; factor equality by domains and dense weights
                     for idx in itertools.product(*[range(n) for n in dsh]):
                         vals = [d.denumberize(i) for d, i in zip(doms, idx)]
-                        got = f.apply(vals).item()
                         ctx.evaluations += 1
+                        try:
+                            got = f.apply(vals).item()
+                        except Exception as e:  # noqa
+                            ctx.fail(f'apply(values) raised {type(e).__name__} for values of the domains',
+                                     dict(domains=list(dsh), rep=rname, values=repr(vals)), repr(e), float(dense[idx].item()), tags=['factor-apply', 'raises'])
+                            break
                         if not same_scalar(got, float(dense[idx].item())):
                             ctx.fail('apply(values) is not the weight at the numberized position',
                                      dict(domains=list(dsh), rep=rname, values=repr(vals)), got, float(dense[idx].item()), tags=['factor-apply'])
@@ -195,7 +218,7 @@ def run_factors(ctx):
                     if not (f == f2) or (f != f2):
                         ctx.fail('factor equality is not by domains and dense weights', dict(domains=list(dsh), rep=rname), False, True, tags=['factor-eq'])
                     if numel:
-                        d3 = dense.clone(); d3.view(-1)[0] = 123.0
+                        d3 = dense.clone().contiguous(); d3.view(-1)[0] = 123.0
                         f3 = FiniteFactor(list(doms), d3)
                         if f == f3:
                             ctx.fail('factors with different weights compare equal', dict(domains=list(dsh), rep=rname), True, False, tags=['factor-eq'])
